@@ -305,6 +305,9 @@ pub struct Doc {
     /// a second `<style>` element at the end of the body
     #[serde(default, skip_serializing_if = "Option::is_none")]
     pub style2: Option<String>,
+    /// a third `<style>` element after the second
+    #[serde(default, skip_serializing_if = "Option::is_none")]
+    pub style3: Option<String>,
 }
 
 // ---------------------------------------------------------------------------------------------
@@ -347,7 +350,24 @@ impl Ser {
         }
         if !a.class.is_empty() {
             self.out.push_str(" class=\"");
-            esc(&a.class.join(" "), &mut self.out);
+            // class lists are white-space separated: space, tab, line feed, form feed, runs and
+            // leading / trailing white space (chosen by the position in the output, so that a
+            // document always serialises the same way)
+            const SEPS: &[&str] = &[" ", " ", "\t", "\n", "  ", " \t", "&#9;", "&#10;", "\u{c}"];
+            let k = self.out.len();
+            let sep = if a.class.len() >= 2 { SEPS[k % SEPS.len()] } else { " " };
+            if a.class.len() >= 2 && k % 4 == 0 {
+                self.out.push(' ');
+            }
+            for (i, c) in a.class.iter().enumerate() {
+                if i > 0 {
+                    self.out.push_str(sep);
+                }
+                esc(c, &mut self.out);
+            }
+            if a.class.len() >= 2 && k % 5 == 0 {
+                self.out.push('\n');
+            }
             self.out.push('"');
         }
         if let Some(st) = &a.style {
@@ -566,6 +586,7 @@ impl Doc {
             doctype: false,
             style_place: 0,
             style2: None,
+            style3: None,
         }
     }
     /// Serialise; returns the HTML and the number of labels used.
@@ -604,6 +625,9 @@ impl Doc {
             }
             if let Some(st2) = &self.style2 {
                 s.out.push_str(&format!("<style>{}</style>", st2));
+            }
+            if let Some(st3) = &self.style3 {
+                s.out.push_str(&format!("<style>{}</style>", st3));
             }
             s.out.push_str("</body></html>");
         } else {
@@ -1097,6 +1121,11 @@ pub fn inlines_in(g: &G, depth: u32, in_link: bool) -> BoxedStrategy<Vec<Inline>
                 Just("<sup style=\"display:none\">7</sup>"),
                 Just("<sup><b>8</b></sup>"),
                 Just("<sup>9a</sup>"),
+                // non-ASCII spaces (not collapsible, not breakable)
+                Just("&nbsp;"),
+                Just("&emsp;"),
+                Just("&#x3000;"),
+                Just("x&nbsp;"),
             ]
             .prop_map(|s| Inline::Raw(s.to_string()))
             .boxed(),
